@@ -452,15 +452,25 @@ var timedOps = []struct {
 	name string
 	mk   func(o ro.Observable[int]) catalog.Pipeline
 }{
-	{"Timeout(4ms)", func(o ro.Observable[int]) catalog.Pipeline { return catalog.P(ro.Timeout[int](4 * time.Millisecond)(o)) }},
+	{"Timeout(4ms)", func(o ro.Observable[int]) catalog.Pipeline {
+		return catalog.P(ro.Timeout[int](4 * time.Millisecond)(o))
+	}},
 	{"Delay(4ms)", func(o ro.Observable[int]) catalog.Pipeline { return catalog.P(ro.Delay[int](4 * time.Millisecond)(o)) }},
-	{"DelayEach(4ms)", func(o ro.Observable[int]) catalog.Pipeline { return catalog.P(ro.DelayEach[int](4 * time.Millisecond)(o)) }},
-	{"BufferWithTime(4ms)", func(o ro.Observable[int]) catalog.Pipeline { return catalog.P(ro.BufferWithTime[int](4 * time.Millisecond)(o)) }},
+	{"DelayEach(4ms)", func(o ro.Observable[int]) catalog.Pipeline {
+		return catalog.P(ro.DelayEach[int](4 * time.Millisecond)(o))
+	}},
+	{"BufferWithTime(4ms)", func(o ro.Observable[int]) catalog.Pipeline {
+		return catalog.P(ro.BufferWithTime[int](4 * time.Millisecond)(o))
+	}},
 	{"BufferWithTimeOrCount(3,4ms)", func(o ro.Observable[int]) catalog.Pipeline {
 		return catalog.P(ro.BufferWithTimeOrCount[int](3, 4*time.Millisecond)(o))
 	}},
-	{"SampleTime(4ms)", func(o ro.Observable[int]) catalog.Pipeline { return catalog.P(ro.SampleTime[int](4 * time.Millisecond)(o)) }},
-	{"ThrottleTime(4ms)", func(o ro.Observable[int]) catalog.Pipeline { return catalog.P(ro.ThrottleTime[int](4 * time.Millisecond)(o)) }},
+	{"SampleTime(4ms)", func(o ro.Observable[int]) catalog.Pipeline {
+		return catalog.P(ro.SampleTime[int](4 * time.Millisecond)(o))
+	}},
+	{"ThrottleTime(4ms)", func(o ro.Observable[int]) catalog.Pipeline {
+		return catalog.P(ro.ThrottleTime[int](4 * time.Millisecond)(o))
+	}},
 	{"TimeInterval", func(o ro.Observable[int]) catalog.Pipeline { return catalog.P(ro.TimeInterval[int]()(o)) }},
 	{"Timestamp", func(o ro.Observable[int]) catalog.Pipeline { return catalog.P(ro.Timestamp[int]()(o)) }},
 }
